@@ -614,9 +614,12 @@ impl<'a> TypeConverter<'a> {
             return;
         }
 
-        // Take ownership of the entity
-        let prev = self.owners.insert(created, (owner, name.to_string()));
-        assert!(prev.is_none());
+        // Take ownership of the entity, unless it already has an owner: the same instance
+        // type can be reached twice (imported as an instance and as a type), and both
+        // conversions export the same created types.
+        self.owners
+            .entry(created)
+            .or_insert((owner, name.to_string()));
     }
 
     fn component_type(&mut self, name: Option<&str>, id: wasm::ComponentTypeId) -> Result<WorldId> {
